@@ -259,8 +259,8 @@ def trees(tier, seed):
         variant = i % 4
         out.append((bconf(pre=variant in (1, 3), expected="failure" if variant == 2 and i % 8 == 2 else "success"), b))
     r = vp.rng(seed, "c16")
-    if tier == "quick" and len(out) > 70:
-        keep = out[:30] + r.sample(out[30:], 40)
+    if tier == "quick" and len(out) > 160:
+        keep = out[:40] + r.sample(out[40:], 120)
         out = keep
     return list(enumerate(out))
 
